@@ -26,6 +26,10 @@ Oracle
              progress are queued by the transport and must come out in call order; the peer service may
              send packets from inside its packetReceived callback (re-entrant application).  Same
              delivery oracle.  In 25 % of these sessions IGNORE/DEBUG are also sent during the exchange.
+  asymmetric: the client endpoint is a harness subclass whose KEXINIT offers different cipher / MAC /
+             compression names for client->server and server->client (the payload's per-direction
+             name-lists); the unmodified server negotiates them; everything after the offer is the real
+             code on both sides.  Same delivery oracle; the server's negotiated in/out types are counted.
 False-alarm guards: nothing is asserted about wire bytes (random padding, compression); banner lines
 never start with "SSH-"; the identification region (banners + version line) is kept <= 4000 bytes
 (the documented 4 KiB guard); messages use numbers 50..255 only after both services are started;
@@ -69,7 +73,7 @@ ASSUMPTIONS = ["trusted base: vf.engines.netsim.SimTransport (byte queues, loseC
                "key exchange randomness comes from the OS (cipher text differs between runs; the logical case - configuration, payloads, segmentation, tamper offset - is reproducible from the seed)",
                "one transport.write() per SSH packet is used only to locate the packet to tamper with"]
 SHARDS = {"quick": 4, "thorough": 16}
-FLOORS = {"rekey_sessions": 40, "rekeys_completed": 40, "packets_sent_during_key_exchange": 50, "echo_replies_sent": 20,
+FLOORS = {"asymmetric_compression_sessions": 20, "asymmetric_negotiations_confirmed_at_server": 40, "rekey_sessions": 40, "rekeys_completed": 40, "packets_sent_during_key_exchange": 50, "echo_replies_sent": 20,
           "sessions_established": 100, "payloads_compared": 500, "tamper_sessions": 50, "tamper_disconnects_observed": 50,
           "ident_cut_sessions": 100, "configs_covered": 5, "segments_delivered": 5000}
 READY = True
@@ -90,7 +94,7 @@ def env():
 
     warnings.simplefilter("ignore")
     from cryptography.hazmat.primitives.asymmetric import ec, ed25519, rsa
-    from twisted.conch.ssh import _kex, factory, keys, service, transport
+    from twisted.conch.ssh import _kex, common, factory, keys, service, transport
     from twisted.internet import defer
 
     class Rec(service.SSHService):
@@ -130,11 +134,45 @@ def env():
                 self.rec = Rec()
                 self.requestService(self.rec)
 
+    class AsymCli(Cli):
+        """Client whose KEXINIT names different algorithms for the two directions (the name-lists of the
+        KEXINIT payload are per direction; the stock transport fills both from one attribute).  `asym` =
+        {"enc": (c2s, s2c), "mac": (c2s, s2c), "comp": (c2s, s2c)}.  Only the offer and this side's own
+        record of the negotiated names are adjusted; key set-up, _newKeys and all packet handling are the
+        real code on both sides."""
+        asym = None
+
+        def sendKexInit(self):
+            real = self.sendPacket
+
+            def rewriting(messageType, payload):
+                if messageType == transport.MSG_KEXINIT:
+                    lists = list(common.getNS(payload[16:], 10))
+                    rest = lists.pop()
+                    for pos, key in ((2, "enc"), (4, "mac"), (6, "comp")):
+                        lists[pos], lists[pos + 1] = self.asym[key]
+                    payload = payload[:16] + b"".join(common.NS(x) for x in lists) + rest
+                    self.ourKexInitPayload = bytes((transport.MSG_KEXINIT,)) + payload
+                return real(messageType, payload)
+
+            self.sendPacket = rewriting
+            try:
+                Cli.sendKexInit(self)
+            finally:
+                del self.sendPacket
+
+        def ssh_KEXINIT(self, packet):
+            r = Cli.ssh_KEXINIT(self, packet)
+            a = self.asym
+            self.nextEncryptions = transport.SSHCiphers(a["enc"][0], a["enc"][1], a["mac"][0], a["mac"][1])
+            self.outgoingCompressionType, self.incomingCompressionType = a["comp"]
+            return r
+
     hk = {b"ssh-ed25519": keys.Key(ed25519.Ed25519PrivateKey.generate()),
           b"ssh-rsa": keys.Key(rsa.generate_private_key(65537, 2048)),
           b"ecdsa-sha2-nistp256": keys.Key(ec.generate_private_key(ec.SECP256R1()))}
     base = transport.SSHTransportBase
-    _cache.update(Rec=Rec, Fac=Fac, Cli=Cli, hk=hk, ciphers=list(base.supportedCiphers), macs=list(base.supportedMACs),
+    _cache.update(Rec=Rec, Fac=Fac, Cli=Cli, AsymCli=AsymCli, hk=hk, ciphers=list(base.supportedCiphers), macs=list(base.supportedMACs),
                   comps=list(base.supportedCompressions), kexes=list(base.supportedKeyExchanges), transport=transport)
     return _cache
 
@@ -152,17 +190,19 @@ class Tr(SimTransport):
 
 
 class Session:
-    def __init__(self, cfg, kex, keytype, banners=(b"", b"")):
+    def __init__(self, cfg, kex, keytype, banners=(b"", b""), asym=None):
         e = env()
         cip, mac, comp = cfg
         f = e["Fac"]()
         f.publicKeys = {keytype: e["hk"][keytype].public()}
         f.privateKeys = {keytype: e["hk"][keytype]}
         f.startFactory()
-        self.s, self.c = f.buildProtocol(None), e["Cli"]()
+        self.s, self.c = f.buildProtocol(None), (e["AsymCli"]() if asym else e["Cli"]())
         for t in (self.s, self.c):
             t.supportedCiphers, t.supportedMACs, t.supportedCompressions = [cip], [mac], [comp]
             t.supportedKeyExchanges = [kex]
+        if asym:
+            self.set_asym(asym)
         self.tr = {"s": Tr("s"), "c": Tr("c")}
         self.proto = {"s": self.s, "c": self.c}
         self.prefix = {"s": banners[0], "c": banners[1]}
@@ -173,6 +213,12 @@ class Session:
         self.exc = None
         self.s.makeConnection(self.tr["s"])
         self.c.makeConnection(self.tr["c"])
+
+    def set_asym(self, asym):
+        """Per-direction algorithms for the next key exchange: the client offers them, the server supports both."""
+        self.c.asym = asym
+        for t in (self.s, self.c):
+            t.supportedCiphers, t.supportedMACs, t.supportedCompressions = (list(dict.fromkeys(asym[k])) for k in ("enc", "mac", "comp"))
 
     @staticmethod
     def other(side):
@@ -509,6 +555,72 @@ def rekey_case(ctx, rng, cfg, kex, keytype, label, extra_cfgs):
         sess.close()
 
 
+def asym_case(ctx, rng, kex, keytype, label):
+    """Different cipher / MAC / compression for the two directions (client->server, server->client),
+    optionally re-keyed to another such configuration.  Same delivery oracle."""
+    e = env()
+
+    def pick():
+        comp = rng.choice(((b"zlib", b"none"), (b"none", b"zlib"), (b"zlib", b"none"), (b"zlib", b"zlib"), (b"none", b"none")))
+        enc = tuple(rng.sample(e["ciphers"], 2)) if rng.random() < 0.6 else (rng.choice(e["ciphers"]),) * 2
+        mac = tuple(rng.sample(e["macs"], 2)) if rng.random() < 0.6 else (rng.choice(e["macs"]),) * 2
+        return {"enc": enc, "mac": mac, "comp": comp}
+
+    plan = [pick() for _ in range(rng.choice((1, 1, 2)))]
+    mode = rng.choice(("whole", "rand", "rand"))
+    split = splitter(rng, mode)
+    first = plan[0]
+    sess = Session((first["enc"][0], first["mac"][0], first["comp"][0]), kex, keytype, asym=first)
+    sent = {"c": [], "s": []}
+    witness = {"family": "asymmetric", "kex": kex, "hostkey": keytype, "segmentation": mode, "plan(c2s,s2c)": plan, "case": label}
+    ctx.evaluated()
+    for a in plan:
+        ctx.count("asymmetric_compression_sessions" if a["comp"][0] != a["comp"][1] else "symmetric_compression_in_asym_family")
+        ctx.count("asymmetric_cipher_exchanges", a["enc"][0] != a["enc"][1])
+        ctx.count("asymmetric_mac_exchanges", a["mac"][0] != a["mac"][1])
+
+    def send(side, n):
+        for it in gen_items(rng, n, True):
+            if it[0] == "pkt":
+                sent[side].append((it[1], it[2]))
+                send_items(rng, sess, side, [it])
+
+    try:
+        sess.pump(split)
+        if not sess.established():
+            report_failure(ctx, sess, "asymmetric-session-not-established", "key exchange with per-direction algorithms did not complete",
+                           dict(witness, exception=sess.exc, disconnecting={k: v.disconnecting for k, v in sess.tr.items()}))
+            return
+        ctx.count("sessions_established")
+        for k, a in enumerate(plan):
+            if k:
+                sess.set_asym(a)
+                sess.proto[rng.choice("cs")].sendKexInit()
+                ctx.count("rekeys_started")
+            for side in rng.sample(["s", "c"], 2):
+                send(side, rng.randint(1, 4))
+            sess.pump(split)
+            if not (sess.exc or sess.tr["s"].disconnecting or sess.tr["c"].disconnecting):
+                cur = sess.s.currentEncryptions
+                ok = (cur.inCipType, cur.outCipType, cur.inMACType, cur.outMACType) == (a["enc"][0], a["enc"][1], a["mac"][0], a["mac"][1])
+                ctx.count("asymmetric_negotiations_confirmed_at_server" if ok else "asymmetric_negotiations_not_as_offered")
+            for side in rng.sample(["s", "c"], 2):
+                send(side, rng.randint(1, 3))
+            sess.pump(split)
+        ctx.count("segments_delivered", sess.segments)
+        ctx.distinct(("asym", kex, repr(plan), mode, repr({k: [(n, len(p)) for n, p in v] for k, v in sent.items()})))
+        for side in "sc":
+            got = sess.service(sess.other(side)).got
+            ctx.count("payloads_compared", len(sent[side]))
+            if got != sent[side] or sess.exc or sess.tr["s"].disconnecting or sess.tr["c"].disconnecting:
+                report_failure(ctx, sess, "asymmetric-payload-mismatch", "payloads were not delivered intact with different algorithms in the two directions",
+                               dict(witness, sender=side, sent=[(n, len(p)) for n, p in sent[side]], n_received=len(got),
+                                    exception=sess.exc, disconnecting={k: v.disconnecting for k, v in sess.tr.items()}))
+                return
+    finally:
+        sess.close()
+
+
 def ident_case(ctx, rng, nlines, label, long=False):
     """Every 1-cut of the server's identification region (banner lines + version line), fast kex."""
     e = env()
@@ -683,6 +795,9 @@ def run(ctx):
                 continue
             rng = ctx.case_rng("rekey", ci, k)
             rekey_case(ctx, rng, cfg, e["kexes"][(ci + k) % len(e["kexes"])], keytypes[k % len(keytypes)], "cfg%d/rekey%d" % (ci, k), extra)
+    for k in range(ctx.size(60, 1500)):
+        if ctx.owns(k):
+            asym_case(ctx, ctx.case_rng("asym", k), e["kexes"][k % len(e["kexes"])], keytypes[k % len(keytypes)], "asym%d" % k)
     ctx.count("configs_covered", len(cfgs) if ctx.shard == 0 else 0)
     # every offset of one packet, for the first CTR and the first CBC configuration of this run
     picked = []
@@ -736,6 +851,11 @@ def replay(ctx, w):
     if m:
         ci, o = int(m.group(1)), int(m.group(2))
         tamper_case(ctx, ctx.case_rng("exh", ci, o), allc[ci], e["kexes"][0], b"ssh-ed25519", label, offset=o, pkt_sizes=[33])
+        return
+    m = re.match(r"asym(\d+)$", label)
+    if m:
+        k = int(m.group(1))
+        asym_case(ctx, ctx.case_rng("asym", k), e["kexes"][k % len(e["kexes"])], keytypes[k % len(keytypes)], label)
         return
     m = re.match(r"ident(long)?(\d+)$", label)
     if m:
